@@ -226,7 +226,7 @@ def oracle_spelling(ctx):
 
 
 def run(ctx):
-    ctx.check_proofs(["MPilot.Props.C06", "MPilot.Props.C06Cells"])
+    ctx.check_proofs(["MPilot.Props.C06", "MPilot.Props.C06Cells", "MPilot.Props.C06DeMorgan"])
     model = common.Model()
     orc = numeric.combine(
         numeric.oracle_definition(ctx, reference.FUZZY_OPS, "EEMS", in_range_only=True),
